@@ -435,9 +435,12 @@ func check(prop, tier string) int {
 		return 2
 	}
 	json.Unmarshal(out, &jobs)
-	order := make([]int, len(jobs))
-	for i := range order {
-		order[i] = i
+	var order []int
+	for i := range jobs {
+		if f := os.Getenv("VERIF_JOBS"); f != "" && !strings.Contains(jobs[i].Name, f) {
+			continue // debugging aid: run only the jobs whose name contains VERIF_JOBS
+		}
+		order = append(order, i)
 	}
 	sort.SliceStable(order, func(a, b int) bool { return jobs[order[a]].Cost > jobs[order[b]].Cost })
 	if seed != 0 {
@@ -466,8 +469,8 @@ func check(prop, tier string) int {
 			nw = n
 		}
 	}
-	if nw > len(jobs) {
-		nw = len(jobs)
+	if nw > len(order) {
+		nw = len(order)
 	}
 	results := make([]*jobResult, len(jobs))
 	var mu sync.Mutex
@@ -525,7 +528,14 @@ func check(prop, tier string) int {
 	exhaustive := true
 	vacuous := 0
 	var viols []violation
+	selected := map[int]bool{}
+	for _, i := range order {
+		selected[i] = true
+	}
 	for i, r := range results {
+		if !selected[i] {
+			continue
+		}
 		if r == nil {
 			exhaustive = false
 			caps = append(caps, jobs[i].Name+": no result")
